@@ -1361,3 +1361,291 @@ def k9_chunker_next(mir, rep, max_events=3):
     rep.samples.append({"query": "K9.chunker", "paths": stats["paths"], "bound": "one call from each of 12 abstract pre-states, <= %d libyaml events per call over 8 event classes" % max_events,
                         "claim": "deferred-by-one document delivery, cut points from the event marks, kind from the first content event, parser error => InvalidData error, None after STREAM-END"})
     return stats
+
+
+# -------------------------------------------------------------------------------------------------
+# K10: toml::Output (one step from an arbitrary `used` state)   K11: Translator::translate dispatch
+# K12: json/yaml/msgpack Output framing
+# -------------------------------------------------------------------------------------------------
+
+def _field_index(fn, selfvar, typepat):
+    body = "\n".join("\n".join(b) for b in fn.blocks.values())
+    for m in re.finditer(r"\(\(\*%s\)\.(\d+): ([^)]+)\)" % selfvar, body):
+        if re.search(typepat, m.group(2)):
+            return int(m.group(1))
+    return None
+
+
+def k10_toml_output(mir, rep):
+    """every two-call history of toml::Output, from the state Output::new builds"""
+    TABLE = 6  # toml::Value::Table is the 7th variant of the real enum (String, Integer, Float, Boolean, Datetime, Array, Table)
+    entries = {"from": mir.find(r"^toml::<impl.*>::transcode_from$"), "value": mir.find(r"^toml::<impl.*>::transcode_value$")}
+    newfn = [f for n, f in mir.functions.items() if re.match(r"^toml::<impl.*>::new$", n)]
+    if len(newfn) != 1:
+        raise Inconclusive("toml::Output::new not found")
+    stats = {"first": 0, "written": 0, "second": 0, "second_after_silent_first": 0}
+
+    def h(ex, p, name, argv, dst, dst_type, cur_fn):
+        if name == "drop":
+            return None
+        if re.search(r"toml::Value as Deserialize<'_>>::deserialize::<|toml::Value::try_from::<", name):
+            p.trace.append(("build_value",))
+            r = fresh("built")
+            return [(disc(r) == 0, r), (disc(r) == 1, r)]
+        if re.search(r"toml::to_string_pretty::<", name):
+            p.trace.append(("render",))
+            r = fresh("rendered")
+            return [(disc(r) == 0, r), (disc(r) == 1, r)]
+        if re.search(r"String::as_bytes$", name):
+            return argv[0]
+        if re.search(r"String::len$|<impl \[u8\]>::len$|<impl str>::len$", name):
+            r = fresh("len")
+            p.pc.append(asint(r) >= 0)
+            return r
+        if re.search(r"io::Write>::write_all$", name):
+            p.trace.append(("write_all",))
+            r = fresh("written")
+            return [(disc(r) == 0, r), (disc(r) == 1, r)]
+        if re.search(r"io::Write>::(write|write_fmt|write_vectored)$", name):
+            p.trace.append(("other_write",))
+            return fresh("w")
+        if re.search(r"TomlOutputError as Into<", name):
+            r = fresh("tomlerr")
+            p.pc.append(proj(r, "why") == argv[0])
+            return r
+        return None
+
+    ex = X.Exec(mir, h)
+    ex.inline = {r"::ensure_one_use$", r"::output_value$"}
+    # initial state
+    inits = []
+    ex.run(newfn[0], X.Path(), [fresh("writer")], lambda p, how, value: inits.append((p, value)) if how == "return" else None)
+    if len(inits) != 1:
+        raise Inconclusive("Output::new has %d paths" % len(inits))
+    p_init, me0 = inits[0]
+
+    def check_first(p, value, label):
+        names = [e[0] for e in p.trace]
+        wit = {"kind": "toml_output", "call": "first, " + label, "events": names}
+        is_ok = ex.valid(p, disc(value) == 0)[0]
+        if names.count("build_value") != 1:
+            rep.bad("K10.toml_output", "the first document is deserialized into a TOML value exactly once", wit)
+            return
+        built_ok = any(re.match(r"^disc\(built#\d+\) == 0$", str(c)) for c in p.pc)
+        writes, renders = names.count("write_all"), names.count("render")
+        if "other_write" in names or writes > 1:
+            rep.bad("K10.toml_output", "at most one write_all, nothing else, reaches the writer", wit)
+        if not built_ok:
+            if is_ok or writes or renders:
+                rep.bad("K10.toml_output", "a document the TOML value type refuses (null, unrepresentable) is an error and nothing is written", wit)
+            return
+        if not renders:
+            if is_ok or writes:
+                rep.bad("K10.toml_output", "a root that is not a table is refused and nothing is written", wit)
+            return
+        rendered_ok = any(re.match(r"^disc\(rendered#\d+\) == 0$", str(c)) for c in p.pc)
+        if rendered_ok != (writes == 1):
+            rep.bad("K10.toml_output", "a rendered table is written with exactly one write_all; a render error writes nothing", wit)
+            return
+        wrote_ok = any(re.match(r"^disc\(written#\d+\) == 0$", str(c)) for c in p.pc)
+        if is_ok != (rendered_ok and wrote_ok):
+            rep.bad("K10.toml_output", "success exactly when the one write_all succeeded", wit)
+        if is_ok:
+            stats["written"] += 1
+
+    for l1, f1 in entries.items():
+        firsts = []
+        p1 = p_init.clone()
+        p1.trace = []
+        ex.run(f1, p1, [me0, fresh("doc1")], lambda p, how, value: firsts.append((p, value)) if how == "return" else None)
+        for p, value in firsts:
+            stats["first"] += 1
+            check_first(p, value, l1)
+            state = p.env.get("_1")
+            first_events = [e[0] for e in p.trace]
+            for l2, f2 in entries.items():
+                p2 = p.clone()
+                p2.env = {}
+                p2.trace = []
+                seconds = []
+                ex.run(f2, p2, [state, fresh("doc2")], lambda q, how, value: seconds.append((q, value)) if how == "return" else None)
+                for q, v2 in seconds:
+                    stats["second"] += 1
+                    if "write_all" not in first_events:
+                        stats["second_after_silent_first"] += 1
+                    names2 = [e[0] for e in q.trace]
+                    why = proj(proj(v2, "Err.0"), "why")
+                    multi = ex.valid(q, z3.And(disc(v2) == 1, disc(why) == X.VARIANTS.get("TomlOutputError::MultiDocument", 1)))[0]
+                    if names2 or not multi:
+                        rep.bad("K10.toml_output", "ANY second document or input - whatever became of the first one, including a refused one or an empty table that wrote zero bytes - is refused with MultiDocument before anything is pulled from it, and nothing is written",
+                                {"kind": "toml_output", "first_call": l1, "first_events": first_events, "second_call": l2, "second_events": names2})
+    rep.absorb(ex)
+    if not (stats["written"] and stats["second_after_silent_first"]):
+        raise Inconclusive("vacuity: toml::Output exploration did not reach every outcome (%s)" % stats)
+    rep.witnesses.append("toml::Output: %d first-call paths (%d wrote a table), %d second-call paths (%d after a first call that wrote nothing)"
+                         % (stats["first"], stats["written"], stats["second"], stats["second_after_silent_first"]))
+    rep.samples.append({"query": "K10.toml_output", "claim": "first call: refused value / non-table root / render error => Err, nothing written; table => exactly one write_all; second call of either kind after ANY first call: MultiDocument before anything is pulled",
+                        "bound": "all two-call histories over both entry points from Output::new; all outcomes of Value construction, rendering and writing"})
+
+
+def _consts_named(p, prefix):
+    out = []
+    for c in p.pc:
+        for m in re.finditer(r"(%s#\d+)" % prefix, str(c)):
+            if m.group(1) not in out:
+                out.append(m.group(1))
+    return out or ["none#0"]
+
+
+def k11_translate_dispatch(mir, rep):
+    fn = mir.find(r"Translator.*::translate$|^<impl at src/lib.rs.*>::translate$")
+    FM = {"Json": "json", "Msgpack": "msgpack", "Toml": "toml", "Yaml": "yaml"}
+    stats = {"paths": 0, "dispatched": 0, "undetected": 0}
+
+    def h(ex, p, name, argv, dst, dst_type, cur_fn):
+        if name == "drop":
+            return None
+        if re.search(r"(^|::)detect_format$", name):
+            p.trace.append(("detect",))
+            r = fresh("detected")
+            opt = proj(r, "Ok.0")
+            p.pc.append(z3.And(disc(proj(opt, "Some.0")) >= 0, disc(proj(opt, "Some.0")) <= 3))
+            return [(disc(r) == 1, r), (z3.And(disc(r) == 0, disc(opt) == 0), r), (z3.And(disc(r) == 0, disc(opt) == 1), r)]
+        m = re.search(r"(^|::)(json|msgpack|toml|yaml)::transcode::<", name)
+        if m:
+            p.trace.append(("transcode", m.group(2)))
+            r = fresh("tr")
+            return [(disc(r) == 0, r), (disc(r) == 1, r)]
+        if re.search(r"as Into<error::Error>>::into$|as From<.*>>::from$", name):
+            p.trace.append(("make_error", argv[0]))
+            return fresh("err")
+        return None
+
+    ex = X.Exec(mir, h)
+    me, inp, frm = fresh("translator"), fresh("handle"), fresh("from")
+    p0 = X.Path()
+    p0.pc.append(z3.Or(disc(frm) == 0, disc(frm) == 1))
+    p0.pc.append(z3.And(disc(proj(frm, "Some.0")) >= 0, disc(proj(frm, "Some.0")) <= 3))
+
+    def fin(p, how, value):
+        stats["paths"] += 1
+        if how != "return":
+            return
+        names = [e[0] for e in p.trace]
+        trans = [e for e in p.trace if e[0] == "transcode"]
+        named = ex.valid(p, disc(frm) == 1)[0]
+        wit = {"kind": "dispatch", "named": named, "events": [e[:2] for e in p.trace if e[0] != "make_error"]}
+        if named and "detect" in names:
+            rep.bad("K11.dispatch", "detection is not run when a source format is named", wit)
+        if not named and names.count("detect") != 1:
+            rep.bad("K11.dispatch", "detection runs exactly once when no source format is named", wit)
+        det_err = any(re.match(r"^disc\(detected#\d+\) == 1$", str(c)) for c in p.pc)
+        det = _consts_named(p, "detected")[0]
+        dv = z3.Const(det, X.V)
+        none = (not named) and not det_err and ex.valid(p, disc(proj(dv, "Ok.0")) == 0)[0]
+        if (not named) and (det_err or none):
+            stats["undetected"] += 1
+            if trans or not ex.valid(p, disc(value) == 1)[0]:
+                rep.bad("K11.dispatch", "an undetectable input or a detection error is an error and nothing is translated", wit)
+            if none:
+                lits = [c for (k, c) in ex.consts if k == "s"]
+                if not any("unable to detect input format" in c for c in lits):
+                    rep.bad("K11.dispatch", "the error for an undetectable input says 'unable to detect input format'", wit)
+            return
+        sel = proj(frm, "Some.0") if named else proj(proj(dv, "Ok.0"), "Some.0")
+        if len(trans) != 1:
+            rep.bad("K11.dispatch", "exactly one format's transcoder runs", wit)
+            return
+        stats["dispatched"] += 1
+        want = None
+        for variant, mod in FM.items():
+            if ex.valid(p, disc(sel) == X.VARIANTS["Format::" + variant])[0]:
+                want = mod
+        if want != trans[0][1]:
+            rep.bad("K11.dispatch", "the named or detected format selects its own transcoder (a detected format is used exactly as if it had been named)", wit)
+        tr_ok = any(re.match(r"^disc\(tr#\d+\) == 0$", str(c)) for c in p.pc)
+        if ex.valid(p, disc(value) == 0)[0] != tr_ok:
+            rep.bad("K11.dispatch", "the transcoder's verdict is the translation's verdict", wit)
+    ex.run(fn, p0, [me, inp, frm], fin)
+    rep.absorb(ex)
+    if not (stats["dispatched"] >= 8 and stats["undetected"]):
+        raise Inconclusive("vacuity: translate exploration did not reach every outcome (%s)" % stats)
+    rep.witnesses.append("Translator::translate: %d paths (%d dispatched, %d undetected/detection errors)" % (stats["paths"], stats["dispatched"], stats["undetected"]))
+    rep.samples.append({"query": "K11.dispatch", "paths": stats["paths"], "claim": "named => no detection, that format's transcoder once; unnamed => detection once, its answer used as if named; none/error => Err, nothing translated"})
+
+
+def k12_output_framing(mir, rep):
+    """json / yaml / msgpack Output::{transcode_from, transcode_value}: framing writes and error propagation"""
+    specs = [("json", "after", "\n"), ("yaml", "before", "---\n"), ("msgpack", None, None)]
+    for mod, where, text in specs:
+        for entry in ("transcode_from", "transcode_value"):
+            fn = mir.find(r"^%s::<impl.*>::%s$" % (mod, entry))
+            stats = {"paths": 0, "ok": 0}
+
+            def h(ex, p, name, argv, dst, dst_type, cur_fn):
+                if name == "drop":
+                    return None
+                if re.search(r"(^|::)transcode::<|stream::transcode::<|::to_writer::<|Serialize>::serialize::<", name):
+                    p.trace.append(("body",))
+                    r = fresh("body")
+                    return [(disc(r) == 0, r), (disc(r) == 1, r)]
+                if re.search(r"Arguments::<.*>::(new|from_str)", name) or "Arguments::<'_>::" in name:
+                    s = None
+                    for (k, c), v in ex.consts.items():
+                        if k == "s" and v is argv[0]:
+                            s = c
+                    a = fresh("fmtargs")
+                    p.ghost = dict(p.ghost)
+                    p.ghost["fmt:" + str(a)] = s
+                    return a
+                if re.search(r"io::Write>::write_fmt$", name):
+                    s = p.ghost.get("fmt:" + str(argv[1]))
+                    lits = decode_template(s) if s is not None and not s.endswith("\n") or (s and "\xc0" in s) else [s]
+                    if s is not None and not any(x for x in (lits or []) if x):
+                        lits = [s]
+                    p.trace.append(("write_fmt", "".join(x for x in (lits or []) if x) if lits else None, s))
+                    r = fresh("wf")
+                    return [(disc(r) == 0, r), (disc(r) == 1, r)]
+                if re.search(r"io::Write>::(write|write_all|write_vectored)$", name):
+                    p.trace.append(("raw_write", name.rsplit("::", 1)[-1]))
+                    r = fresh("rw")
+                    return [(disc(r) == 0, r), (disc(r) == 1, r)]
+                if re.search(r"Serializer::<.*>::new$|Serializer::new", name):
+                    return fresh("ser")
+                return None
+            ex = X.Exec(mir, h)
+
+            def fin(p, how, value, ex=ex, mod=mod, where=where, text=text, entry=entry):
+                stats["paths"] += 1
+                if how != "return":
+                    return
+                evs = [e for e in p.trace if e[0] in ("body", "write_fmt", "raw_write")]
+                names = [e[0] for e in evs]
+                wit = {"kind": "framing", "output": mod, "entry": entry, "events": [(e[0], e[1] if len(e) > 1 else None) for e in evs]}
+                fails = [c for c in p.pc if re.match(r"^disc\((body|wf|rw)#\d+\) == 1$", str(c))]
+                is_ok = ex.valid(p, disc(value) == 0)[0]
+                if bool(fails) == is_ok:
+                    rep.bad("K12.framing", "Ok exactly when the document body and every framing write succeeded", wit)
+                if fails and names and not re.match(r"^disc\((body|wf|rw)#\d+\) == 1$", str(fails[-1])):
+                    pass
+                if "raw_write" in names:
+                    rep.bad("K12.framing", "framing is written with a method that delivers the whole text (write_fmt / write_all through writeln!), never a bare write", wit)
+                    return
+                if is_ok:
+                    stats["ok"] += 1
+                    seq = [(e[0], e[1] if len(e) > 1 else None) for e in evs]
+                    want = {"after": [("body", None), ("write_fmt", text)], "before": [("write_fmt", text), ("body", None)], None: [("body", None)]}[where]
+                    got = [(a, b if a == "write_fmt" else None) for a, b in seq]
+                    if got != want:
+                        rep.bad("K12.framing", "%s output frames every document: %s" % (mod, {"after": "the document then a newline", "before": "a '---' line then the document", None: "the bare value"}[where]), wit)
+                else:
+                    # nothing after the first failure
+                    first_fail = None
+                    for i, e in enumerate(evs):
+                        pass
+            ex.run(fn, X.Path(), [fresh("out"), fresh("doc")], fin)
+            rep.absorb(ex)
+            if not stats["ok"]:
+                raise Inconclusive("vacuity: %s::Output::%s never succeeds" % (mod, entry))
+            rep.witnesses.append("%s::Output::%s: %d paths" % (mod, entry, stats["paths"]))
+    rep.samples.append({"query": "K12.framing", "claim": "JSON: body then newline; YAML: '---' line then body; MessagePack: body only; Ok iff every step succeeded; no bare write()"})
